@@ -53,15 +53,18 @@ func sameFailure(fs []finding, kind, matcher string) bool {
 // shrinkScript keeps the setup lines and delta-debugs the T lines.
 func shrinkScript(drv *vh.Driver, script []string, kind, matcher string) []string {
 	var setup, txs []string
+	var tail []string
 	for _, l := range script {
-		if strings.HasPrefix(l, "T ") {
+		if strings.HasPrefix(l, "T ") || strings.HasPrefix(l, "C ") {
 			txs = append(txs, l)
+		} else if l == "WORKER" {
+			tail = []string{l}
 		} else {
 			setup = append(setup, l)
 		}
 	}
 	fails := func(sub []string) bool {
-		fs, _ := runScript(drv, append(append([]string{}, setup...), sub...))
+		fs, _ := runScript(drv, append(append(append([]string{}, setup...), sub...), tail...))
 		return sameFailure(fs, kind, matcher)
 	}
 	if !fails(txs) {
@@ -71,12 +74,12 @@ func shrinkScript(drv *vh.Driver, script []string, kind, matcher string) []strin
 	// drop setup lines that are not needed
 	for i := len(setup) - 1; i >= 1; i-- {
 		cand := append(append([]string{}, setup[:i]...), setup[i+1:]...)
-		fs, _ := runScript(drv, append(append([]string{}, cand...), txs...))
+		fs, _ := runScript(drv, append(append(append([]string{}, cand...), txs...), tail...))
 		if sameFailure(fs, kind, matcher) {
 			setup = cand
 		}
 	}
-	return append(setup, txs...)
+	return append(append(setup, txs...), tail...)
 }
 
 func run(c *vh.Ctx) error {
@@ -153,7 +156,14 @@ func run(c *vh.Ctx) error {
 	}
 	reported := map[string]bool{}
 	for bi := 0; bi < nBlocks; bi++ {
-		script, e, dist := genBlock(c.R, drv)
+		var script []string
+		var e *executor
+		var dist map[string]int
+		if bi%4 == 3 {
+			script, e, dist = genWorkerBlock(c.R, drv)
+		} else {
+			script, e, dist = genBlock(c.R, drv)
+		}
 		for k, v := range dist {
 			res.DistN(k, v)
 		}
